@@ -1,4 +1,6 @@
 import Mochi.Model.Broker
+import Mochi.Lemmas.BrokerRetained
+import Mochi.Lemmas.BrokerReplay
 /-!
 # C05 — Retained store reflects the latest retained publish per topic
 
@@ -65,4 +67,250 @@ theorem C05_shared_never (s : Server) (i : Nat) (sub : Sub) (ex : Bool) (k : Nat
 example : (assocGet (retainMsg (retainMsg (init {}) { topic := [97], payload := [1], retain := true })
             { topic := [97], payload := [2], retain := true }).rmsgs [97]).map (·.payload) = some [2] := by decide
 
+
+/-! ## The retained store along histories
+
+`NW T s` (`Mochi/Lemmas/BrokerRetained.lean`): no session object of `s` holds a will with the retain flag on a topic of
+`T`, and no delayed will is one.  It holds at `init` and is kept by every op that is not a CONNECT carrying such a
+will (`C05_will_invariant_step`).  `op.avoids T U`: the op is not a PUBLISH (client or inline) with the retain flag on a
+topic of `U` (a topic given through an alias counts as "may be in `U`"), not `tick "retained"`, and not a CONNECT with a
+retained will on a topic of `T`.  All 12 op kinds are covered, sequential or not. -/
+
+/-- what `retainMsg` stores for a message -/
+def storedMsg (pk : Msg) : Msg := { pk with dup := false, id := 0, alias := 0, subIds := [] }
+
+theorem retainMsg_look_self (s : Server) (pk : Msg) (ha : s.caps.retainAvailable ≠ 0) (hi : pk.ignore = false) :
+    assocGet (retainMsg s pk).rmsgs pk.topic = if pk.payload.length > 0 then some (storedMsg pk) else none := by
+  unfold retainMsg
+  have h : ¬ (s.caps.retainAvailable == 0 || pk.ignore) = true := by simp [ha, hi]
+  rw [if_neg h]
+  show assocGet (if pk.payload.length > 0 then assocSet s.rmsgs pk.topic _ else assocDel s.rmsgs pk.topic) pk.topic = _
+  by_cases hp : pk.payload.length > 0
+  · rw [if_pos hp, if_pos hp, assocGet_assocSet_self]; rfl
+  · rw [if_neg hp, if_neg hp, assocGet_assocDel_self]
+
+/-- **1(a)** the retained store at `t` changes only by a retained publish on `t` (client, inline, or a will with the
+    retain flag) or by `tick "retained"`: every other op — of all 12 kinds — leaves the lookup at `t` unchanged -/
+theorem C05_store_changes_only_by (s : Server) (op : Op) (t : Str)
+    (hnw : NW (fun u => u = t) s) (hav : op.avoids (fun u => u = t) (fun u => u = t)) :
+    assocGet (step s op).1.rmsgs t = assocGet s.rmsgs t :=
+  (step_rk (fun _ h => h) s op hnw hav).2 t rfl
+
+/-- … and `tick "retained"` only removes -/
+theorem C05_store_tick_only_removes (s : Server) (now : Int) (t : Str) :
+    assocGet (step s (.tick "retained" now)).1.rmsgs t = none ∨
+    assocGet (step s (.tick "retained" now)).1.rmsgs t = assocGet s.rmsgs t := by
+  rw [step_tick_retained]; exact tickRetained_mono s now t
+
+/-- the will side condition is an invariant of every history without a CONNECT carrying a retained will on `t` -/
+theorem C05_will_invariant_step (s : Server) (op : Op) (t : Str) (hnw : NW (fun u => u = t) s)
+    (hw : op.willAvoids (fun u => u = t)) : NW (fun u => u = t) (step s op).1 := NW_step s op hnw hw
+
+theorem C05_will_invariant_run (caps : Caps) (ops : List Op) (t : Str)
+    (hw : ∀ op ∈ ops, op.willAvoids (fun u => u = t)) : NW (fun u => u = t) (run (init caps) ops) :=
+  NW_run _ ops (NW_init _ caps) hw
+
+/-- **1(b), client, QoS 0** after an accepted retained publish on `topic` the store holds exactly that message at
+    `topic` (origin = the publisher's id, payload, QoS; expiry stamped) — or nothing when the payload is empty.
+    Restrictions (those of `step_recv_publish_accepted`): QoS 0, no alias, no shared subscription matches the topic,
+    the publisher holds no deferred message. -/
+theorem C05_accepted_retained_publish_sets (s : Server) (conn i : Nat) (dup : Bool) (topic payload : Str) (me : Nat)
+    (hc : assocGet s.connOf conn = some i) (h : AcceptedQ0 s i topic)
+    (hsh : (subscribers (retainedState s (inboundMsg s i 0 dup true 0 topic payload me)).topics topic).shared = [])
+    (hra : s.caps.retainAvailable ≠ 0) :
+    assocGet (step s (.recv conn (.publish 0 dup true 0 topic payload me none))).1.rmsgs topic =
+      if payload.length > 0 then some (storedMsg (inboundMsg s i 0 dup true 0 topic payload me)) else none := by
+  rw [step_recv_publish_accepted s conn i dup true topic payload me hc h hsh, (publishToSubscribers_kw _ _).2]
+  show assocGet (retainMsg s (inboundMsg s i 0 dup true 0 topic payload me)).rmsgs
+    (inboundMsg s i 0 dup true 0 topic payload me).topic = _
+  rw [retainMsg_look_self _ _ hra rfl]
+  rfl
+
+/-- **1(b), inline API** (any QoS; the stored QoS is the requested one capped at the server maximum) -/
+theorem C05_accepted_inline_retained_publish_sets (s : Server) (topic payload : Str) (qos : Nat)
+    (h : AcceptedInline s topic)
+    (hq : (inlineMsg s topic payload true qos).qos = 0 ∨
+      ∀ cs ∈ (subscribers (retainedState s (inlineMsg s topic payload true qos)).topics topic).subs, cs.2.qos = 0)
+    (hsh : (subscribers (retainedState s (inlineMsg s topic payload true qos)).topics topic).shared = [])
+    (hra : s.caps.retainAvailable ≠ 0) :
+    assocGet (step s (.inlinePublish topic payload true qos)).1.rmsgs topic =
+      if payload.length > 0 then some (storedMsg (inlineMsg s topic payload true qos)) else none := by
+  rw [step_inlinePublish_accepted s topic payload true qos h hq hsh, (publishToSubscribers_kw _ _).2]
+  show assocGet (retainMsg s (inlineMsg s topic payload true qos)).rmsgs (inlineMsg s topic payload true qos).topic = _
+  rw [retainMsg_look_self _ _ hra rfl]
+  rfl
+
+/-- what the stored message is: the publisher's id, the payload, the (capped) QoS, the retain flag, the stamped expiry -/
+theorem storedMsg_inboundMsg_fields (s : Server) (i qos : Nat) (dup : Bool) (id : Nat) (topic payload : Str) (me : Nat) :
+    let m := storedMsg (inboundMsg s i qos dup true id topic payload me)
+    m.origin = (getObj s i).id ∧ m.payload = payload ∧ m.topic = topic ∧ m.qos = qos ∧ m.retain = true ∧ m.type = 3 ∧
+    m.created = NOW ∧
+    m.expiry = (if minimumNZ s.caps.maxMessageExpiry me > 0 then NOW + minimumNZ s.caps.maxMessageExpiry me else 0) :=
+  ⟨rfl, rfl, rfl, rfl, rfl, rfl, rfl, rfl⟩
+
+/-- the lift: once the store at `t` holds `v` (or nothing), it still does after any further ops that avoid `t` -/
+theorem C05_store_kept_run (s : Server) (post : List Op) (t : Str) (hnw : NW (fun u => u = t) s)
+    (hpost : ∀ op ∈ post, op.avoids (fun u => u = t) (fun u => u = t)) :
+    assocGet (run s post).rmsgs t = assocGet s.rmsgs t :=
+  (run_rk (fun _ h => h) s post hnw hpost).2 t rfl
+
+/-- **1(c)** latest wins, over whole histories (sequential or not): if the last retained publish on `topic` in the
+    history `pre ++ [PUBLISH] ++ post` — no later op is a retained publish on `topic` or `tick "retained"`, and no
+    CONNECT of the history carries a retained will on `topic` — was accepted and carried `payload`, the store at the
+    end holds that message at `topic`, or nothing if the payload was empty -/
+theorem C05_latest_wins_seq (caps : Caps) (pre post : List Op) (conn i : Nat) (dup : Bool) (topic payload : Str) (me : Nat)
+    (hpre : ∀ op ∈ pre, op.willAvoids (fun u => u = topic))
+    (hc : assocGet (run (init caps) pre).connOf conn = some i) (h : AcceptedQ0 (run (init caps) pre) i topic)
+    (hsh : (subscribers (retainedState (run (init caps) pre)
+      (inboundMsg (run (init caps) pre) i 0 dup true 0 topic payload me)).topics topic).shared = [])
+    (hra : (run (init caps) pre).caps.retainAvailable ≠ 0)
+    (hpost : ∀ op ∈ post, op.avoids (fun u => u = topic) (fun u => u = topic)) :
+    assocGet (run (init caps) (pre ++ .recv conn (.publish 0 dup true 0 topic payload me none) :: post)).rmsgs topic =
+      if payload.length > 0 then some (storedMsg (inboundMsg (run (init caps) pre) i 0 dup true 0 topic payload me))
+      else none := by
+  have hnw := C05_will_invariant_run caps pre topic hpre
+  have hnw1 := NW_step _ (.recv conn (.publish 0 dup true 0 topic payload me none)) hnw trivial
+  rw [run_append_rk, run_cons_rk, C05_store_kept_run _ post topic hnw1 hpost]
+  exact C05_accepted_retained_publish_sets _ conn i dup topic payload me hc h hsh hra
+
+/-- … the same for a retained publish through the inline API -/
+theorem C05_latest_wins_inline_seq (caps : Caps) (pre post : List Op) (topic payload : Str) (qos : Nat)
+    (hpre : ∀ op ∈ pre, op.willAvoids (fun u => u = topic))
+    (h : AcceptedInline (run (init caps) pre) topic)
+    (hq : (inlineMsg (run (init caps) pre) topic payload true qos).qos = 0 ∨
+      ∀ cs ∈ (subscribers (retainedState (run (init caps) pre)
+        (inlineMsg (run (init caps) pre) topic payload true qos)).topics topic).subs, cs.2.qos = 0)
+    (hsh : (subscribers (retainedState (run (init caps) pre)
+      (inlineMsg (run (init caps) pre) topic payload true qos)).topics topic).shared = [])
+    (hra : (run (init caps) pre).caps.retainAvailable ≠ 0)
+    (hpost : ∀ op ∈ post, op.avoids (fun u => u = topic) (fun u => u = topic)) :
+    assocGet (run (init caps) (pre ++ .inlinePublish topic payload true qos :: post)).rmsgs topic =
+      if payload.length > 0 then some (storedMsg (inlineMsg (run (init caps) pre) topic payload true qos)) else none := by
+  have hnw := C05_will_invariant_run caps pre topic hpre
+  have hnw1 := NW_step _ (.inlinePublish topic payload true qos) hnw trivial
+  rw [run_append_rk, run_cons_rk, C05_store_kept_run _ post topic hnw1 hpost]
+  exact C05_accepted_inline_retained_publish_sets _ topic payload qos h hq hsh hra
+
+
+/-! ## The retained replay of a new subscription
+
+Stated for `publishRetainedToClient s i sub existed k` — the call `processSubscribe` makes for the `k`-th filter of an
+accepted SUBSCRIBE, in the state after the subscription is filed (filing changes neither `rmsgs` nor the index's retained
+store).  Restrictions: a plain (not shared) filter, a QoS 0 subscription (nothing is filed in-flight), a live client that
+uses no topic aliases (`ReplayClient`: MQTT 5 or MQTT 3), nothing retained under the empty topic (a will topic is not
+validated, `hne`), `StoredPub s` (decidable: every stored packet is a PUBLISH with the retain flag under its own topic —
+true of everything `processPublish` / `sendLWT` store; not proved here as an invariant of all histories).  The index
+hypotheses `RetIdxOK`, `RetKeysOK` hold after EVERY history (`RetIdxOK_run`, `RetKeys_run`). -/
+
+/-- **2** the PUBLISH packets written by the replay are exactly the copies of the stored retained messages whose topic
+    the filter matches (`specMatch`) and which the client may read (not excluded by No Local, read ACL) — for Retain
+    Handling 0, and Retain Handling 1 when the subscription is new -/
+theorem C05_subscribe_replays_exactly (s : Server) (i : Nat) (sub : Sub) (ex : Bool) (k : Nat) (hc : ReplayClient s i)
+    (hq : sub.qos = 0) (hsp : StoredPub s) (hns : isSharedFilter sub.filter = false)
+    (hrh : sub.rh = 0 ∨ (sub.rh = 1 ∧ ex = false))
+    (hidx : RetIdxOK (core s)) (hkeys : RetKeysOK (core s)) (hne : assocGet s.rmsgs [] = none)
+    (hf : sub.filter ≠ []) (hok : specLevelsOK (splitLevels sub.filter) = true) (o : Out) :
+    (publishRetainedToClient s i sub ex k).1 = s ∧
+    (o ∈ (publishRetainedToClient s i sub ex k).2 ↔
+      ∃ t pk, assocGet s.rmsgs t = some pk ∧ specMatch (splitLevels sub.filter) t = true ∧
+        replayGate s i (withIdent sub) pk = true ∧ o = replayPacket s i (withIdent sub) pk) := by
+  have hrh' : ((sub.rh == 1 && ex) || sub.rh == 2) = false := by
+    rcases hrh with h | ⟨h, h'⟩
+    · rw [h]; rfl
+    · rw [h, h']; rfl
+  refine ⟨?_, replay_mem_iff s i sub ex k hc hq hsp hns hrh' hidx hkeys hne hf hok o⟩
+  rw [publishRetainedToClient_replay s i sub ex k hc hq hsp hns hrh']
+
+/-- each replayed copy carries the retain flag, the stored topic, payload and origin -/
+theorem C05_replayed_copy_fields (s : Server) (i : Nat) (sub : Sub) (t : Str) (pk : Msg) (hsp : StoredPub s)
+    (hg : assocGet s.rmsgs t = some pk) :
+    ∃ m me, replayPacket s i sub pk = .wrote (getObj s i).conn (.publish (getObj s i).ver m me) ∧
+      m.retain = true ∧ m.topic = t ∧ m.payload = pk.payload ∧ m.origin = pk.origin := by
+  obtain ⟨_, h2, h3⟩ := hsp _ (assocGet_some_mem _ _ _ hg)
+  exact ⟨_, _, rfl, h2, h3, rfl, rfl⟩
+
+/-- … one per retained message: the replay is the image of the (permuted) list `Messages(filter)` returns, whose topics
+    are pairwise distinct -/
+theorem C05_subscribe_replays_each_once (s : Server) (i : Nat) (sub : Sub) (ex : Bool) (k : Nat) (hc : ReplayClient s i)
+    (hq : sub.qos = 0) (hsp : StoredPub s) (hns : isSharedFilter sub.filter = false)
+    (hrh : ((sub.rh == 1 && ex) || sub.rh == 2) = false)
+    (hidx : RetIdxOK (core s)) (hne : assocGet s.topics.retained [] = none)
+    (hok : specLevelsOK (splitLevels sub.filter) = true) :
+    (publishRetainedToClient s i sub ex k).2 =
+      (permuteBy (permDigit s.permSeed k) (messages s.topics sub.filter)).flatMap (replayOne s i (withIdent sub)) ∧
+    ((permuteBy (permDigit s.permSeed k) (messages s.topics sub.filter)).map (·.topic)).Nodup := by
+  refine ⟨by rw [publishRetainedToClient_replay s i sub ex k hc hq hsp hns hrh], ?_⟩
+  exact ((permuteBy_perm _ _).map _).nodup_iff.mpr (messages_nodup_of_RetIdxOK s hidx hne sub.filter hok)
+
+/-- Retain Handling 2: none; Retain Handling 1: none if the subscription existed; a shared filter: none -/
+theorem C05_subscribe_replays_none (s : Server) (i : Nat) (sub : Sub) (ex : Bool) (k : Nat)
+    (h : isSharedFilter sub.filter = true ∨ sub.rh = 2 ∨ (sub.rh = 1 ∧ ex = true)) :
+    publishRetainedToClient s i sub ex k = (s, []) := replay_none s i sub ex k h
+
+/-! ## Non-vacuity (closed histories, by `decide`) -/
+
+/-- an MQTT 5 publisher retains payload 1, then payload 2 on topic `a` (Message Expiry Interval 10) -/
+def c05History : List Op :=
+  [.connect 1 { ver := 5, id := [112] },
+   .recv 1 (.publish 0 false true 0 [97] [1] 10 none),
+   .recv 1 (.publish 0 false true 0 [97] [2] 10 none)]
+
+/-- the subscriber's ops: connect, SUBSCRIBE `#` -/
+def c05Sub : Op := .recv 2 (.subscribe 1 0 [{ filter := [35] }])
+
+def isPubOf (conn : Nat) (topic payload : Str) (retain : Bool) (o : Out) : Bool :=
+  match o with
+  | .wrote c (.publish _ m _) => c == conn && m.topic == topic && m.payload == payload && m.retain == retain
+  | _ => false
+
+def isAnyPub (o : Out) : Bool :=
+  match o with
+  | .wrote _ (.publish ..) => true
+  | _ => false
+
+set_option maxRecDepth 100000 in
+theorem C05_C25_nonvacuity :
+    -- latest wins: the store holds payload 2 (origin `p`, expiry time `NOW + 10`)
+    (assocGet (run (init {}) c05History).rmsgs [97]).map (fun m => (m.payload, m.origin, m.expiry, m.retain))
+      = some ([2], [112], NOW + 10, true) ∧
+    -- an empty payload clears the topic
+    assocGet (run (init {}) (c05History ++ [.recv 1 (.publish 0 false true 0 [97] [] 0 none)])).rmsgs [97] = none ∧
+    -- a new subscriber is replayed exactly that message, with the retain flag
+    ((step (run (init {}) (c05History ++ [.connect 2 { ver := 5, id := [115] }])) c05Sub).2.filter isAnyPub).map
+        (isPubOf 2 [97] [2] true) = [true] ∧
+    -- housekeeping at `NOW + 20 > NOW + 10` removes it, and the later subscriber is replayed nothing
+    (run (init {}) (c05History ++ [.tick "retained" (NOW + 20)])).rmsgs = [] ∧
+    (step (run (init {}) (c05History ++ [.tick "retained" (NOW + 20), .connect 2 { ver := 5, id := [115] }])) c05Sub).2.filter
+        isAnyPub = [] ∧
+    -- housekeeping at `NOW + 10` (not strictly later) keeps it
+    (run (init {}) (c05History ++ [.tick "retained" (NOW + 10)])).rmsgs.length = 1 ∧
+    -- the side conditions of the replay theorem hold in that state
+    StoredPub (run (init {}) (c05History ++ [.connect 2 { ver := 5, id := [115] }])) := by
+  decide
+
+/-- the general theorems instantiated: the CONNECT and the SUBSCRIBE of the subscriber leave the store at `a` alone -/
+example : assocGet (run (run (init {}) c05History) [.connect 2 { ver := 5, id := [115] }, c05Sub]).rmsgs [97] =
+    assocGet (run (init {}) c05History).rmsgs [97] := by
+  refine C05_store_kept_run _ _ [97] (C05_will_invariant_run {} c05History [97] ?_) ?_
+  · intro op hop
+    simp only [c05History, List.mem_cons, List.not_mem_nil, or_false] at hop
+    rcases hop with rfl | rfl | rfl
+    · intro w hw; cases hw
+    · trivial
+    · trivial
+  · intro op hop
+    simp only [c05Sub, List.mem_cons, List.not_mem_nil, or_false] at hop
+    rcases hop with rfl | rfl
+    · intro w hw; cases hw
+    · trivial
+
 end Mochi.Broker
+
+#print axioms Mochi.Broker.C05_store_changes_only_by
+#print axioms Mochi.Broker.C05_accepted_retained_publish_sets
+#print axioms Mochi.Broker.C05_accepted_inline_retained_publish_sets
+#print axioms Mochi.Broker.C05_latest_wins_seq
+#print axioms Mochi.Broker.C05_latest_wins_inline_seq
+#print axioms Mochi.Broker.C05_subscribe_replays_exactly
+#print axioms Mochi.Broker.C05_subscribe_replays_each_once
+#print axioms Mochi.Broker.C05_C25_nonvacuity
